@@ -66,12 +66,18 @@ class Run:
         self.samples = []
         self.checker_failures = []
         self.exhaustive_parts = []
-        self.per_obl_timeout = float(os.environ.get("PV_TIMEOUT", 10 if tier == "quick" else 60))
+        # budgets are wall-clock; on a machine busy with other work they are stretched (up to 4x) so that verdicts
+        # do not flip to "undecided" because of load
+        try:
+            self.load_factor = min(4.0, max(1.0, os.getloadavg()[0] / (0.6 * (os.cpu_count() or 16))))
+        except OSError:
+            self.load_factor = 1.0
+        self.per_obl_timeout = self.load_factor * float(os.environ.get("PV_TIMEOUT", 10 if tier == "quick" else 60))
         self.paths = 0
         self.level_override = None  # a check whose substance is bounded claims "other" even when its few obligations discharge
         self.nonproved = 0
-        self.section_budget = float(os.environ.get("PV_SECTION_BUDGET", 150 if tier == "quick" else 1200))
-        self.deadline = self.t0 + (float(os.environ.get("PV_RUN_BUDGET", 600 if tier == "quick" else 3600)))
+        self.section_budget = self.load_factor * float(os.environ.get("PV_SECTION_BUDGET", 150 if tier == "quick" else 1200))
+        self.deadline = self.t0 + self.load_factor * (float(os.environ.get("PV_RUN_BUDGET", 600 if tier == "quick" else 3600)))
 
     # ---------------------------------------------------------------- bookkeeping
     def assume(self, *ids):
